@@ -45,6 +45,16 @@ for _j in _JUNK + ["/* a", "\"x", "info!(", "info!(\"", "(", "[ref: ", "ref = ",
     CRAFTED.append(('    let globs = ["src%s", "tests%s", "benches%s"];\n' % (_j, _j, _j) * 12).encode("utf-8"))
 
 
+# comments that are empty or hold nothing but white space, directly above an invocation with a literal
+for _c in ("/* */", "/*\t*/", "/**/", "//", "//   ", "// \t", "/* \u00a0 */", "/*\u2003*/", "//\u00a0", "/***/", "/* * */", "//!", "///"):
+    for _m in ('info!("after an empty comment");', 'println!("unconfigured after an empty comment");', 'info!(a = 1; "x")'):
+        CRAFTED.append((_c + "\n" + _m + "\n").encode("utf-8"))
+        CRAFTED.append(("fn f() {\n    " + _c + "\n\n    " + _m + "\n}\n").encode("utf-8"))
+# statements reported at columns / lines beyond 16 bits
+CRAFTED.append(("static T: [&str; 3] = [" + '"entry", ' * 9000 + "]; " + 'log::warn!("far right"); info!(k = 1; "further")\n').encode("utf-8"))
+CRAFTED.append(("\n" * 70000 + 'info!("line seventy thousand and one");\n').encode("utf-8"))
+
+
 # very deep nesting (a recursive recogniser needs a stack frame per level): 150 000 closed levels of each bracket kind in every
 # argument position
 for _o, _c in ((b"(", b")"), (b"[", b"]"), (b"{", b"}"), (b"/*", b"*/")):
